@@ -75,7 +75,7 @@ CHECKS = {
 }
 
 # properties whose check is finished and registered
-READY = ["C01", "C02", "C03", "C04", "C05", "C06", "C07", "C08", "C09", "C10", "C11", "C12", "C13", "C14", "C16", "C17", "C18", "C20"]
+READY = ["C01", "C02", "C03", "C04", "C05", "C06", "C07", "C08", "C09", "C10", "C11", "C12", "C13", "C14", "C15", "C16", "C17", "C18", "C19", "C20"]
 
 PENDING_REASON = "claimed by the design (PBT/fuzzing applies) but its check is not built yet in this snapshot; see DESIGN.md section 4"
 
